@@ -150,6 +150,31 @@ def run(ctx):
         single = [x for x in terms if 'Index::index(' in x or re.search(r'\b(last|first|get)\(', x)]
         srcs = set(re.sub(r'^Iterator::next\((.*)\)$', r'\1', T.call_term(fn, nb)) for nb in nexts)
         whole = [x for x in terms if re.search(r'Iterator::(next|fold|try_fold|max|max_by_key|map|sum)\b', x) and any(sx and sx in x for sx in srcs)]
+        # the traversal may live in a private helper (`let range_end = max_range_end(&hr)?`): read through one level of crate-local calls
+        for o in org:
+            inner = o
+            while inner and inner[0] == 'field':
+                inner = inner[1]
+            if inner and inner[0] == 'call':
+                for tgt in prog.callee_targets(fn.B[inner[1]]['t']):
+                    if prog.has(tgt) and 'hash_utils' in tgt and tgt != F:
+                        hf = prog.fn(tgt)
+                        hterms = sorted(set(T.origin_term(hf, o2)[0] for o2 in hf.origins({'l': 0, 'p': []})))
+                        hall = ' ; '.join(hterms) + ' ; ' + ' ; '.join(T.call_term(hf, b2) for b2, t2 in hf.calls())
+                        if re.search(r'Iterator::(next|fold|try_fold|max|max_by_key|map)\b', hall) and 'HashRange::' in hall and 'Index::index(' not in hall and re.search(r'(Ord::max|cmp::max|Iterator::max|max_by_key|max_by)\(', hall):
+                            whole.append('%s(..): traverses its argument' % tgt.split('::')[-1])
+                            single = [x for x in single if tgt.split('::')[-1] not in x]
+        # ... and it is the MAXIMUM over the traversal (ranges are sorted by start, not by end): the accumulation goes through max(), or an assignment
+        # guarded by a comparison with the accumulator; `range_end = end` keeps only the last range's end
+        alltxt = ' ; '.join(terms) + ' ; ' + ' ; '.join(whole)
+        is_max = re.search(r'(Ord::max|cmp::max|Iterator::max|max_by_key|max_by)\(', alltxt) is not None or 'traverses its argument' in alltxt
+        if not is_max:
+            name_acc = fn.name_of(other['l']) if 'l' in other and not other.get('p') else None
+            for blk in fn.B:
+                for dst, rv in blk['s']:
+                    if rv['k'] == 'bin' and rv['op'] in ('Lt', 'Le', 'Gt', 'Ge') and name_acc and name_acc in (T.op_term(fn, rv['a']), T.op_term(fn, rv['b'])) and 'checked_add' in (T.op_term(fn, rv['a']) + T.op_term(fn, rv['b'])):
+                        is_max = True
+        ctx.ob('C13-D5', F, 'bound compared with data_len', 'is the maximum range end over the traversal (max / guarded assignment), not the last one seen', is_max, detail=alltxt[:300], site=loc(fn.B[bi]['t'].get('span')))
         ctx.ob('C13-D5', F, 'bound compared with data_len', 'derived from every supplied range (iterator traversal), not from one indexed element',
                bool(whole) and not single, detail='origins: %s' % '; '.join(t[:110] for t in terms)[:600], site=loc(fn.B[bi]['t'].get('span')))
 
